@@ -15,7 +15,7 @@ SOURCES = ['celt/x86/x86cpu.c', 'celt/x86/x86cpu.h', 'celt/x86/x86_celt_map.c', 
            'silk/lin2log.c', 'silk/control_codec.c', 'silk/float/wrappers_FLP.c', 'silk/quant_LTP_gains.c',
            'silk/tables_LTP.c', 'silk/structs.h', 'silk/define.h']
 REQUIRED_THEOREMS = ['OpusProps.C15.' + t for t in (
-    'arch_range', 'arch_decision', 'dispatch_shape', 'dispatch_safe', 'vqWMatEC_sse_eq_c',
+    'arch_range', 'arch_decision', 'dispatch_shape', 'dispatch_safe', 'float_kernels_fixed_below_avx2', 'vqWMatEC_sse_eq_c',
     'lanes_eq_seq_inner_prod', 'lanes_eq_seq_dual_inner_prod', 'lanes_eq_seq_xcorr_kernel',
     'lanes_eq_seq_pitch_xcorr', 'lanes_eq_seq_comb_filter', 'lanes_eq_seq_inner_product_flp')]
 UNPROVED = [
@@ -40,6 +40,10 @@ RULE = ('exact domain, enumerated: every length 0..72 (thorough: 0..1100) for ce
         '{0,1,6,7,8,13} x 18 values of the cap variable, plus random registers. Dispatch: every table, every index. A case is '
         'distinct by (operation, variant set, outcome class).')
 NOT_COVERED = [
+    'observation (dead code, not a violation): silk_noise_shape_quantizer_10_16_sse4_1 (silk/x86/NSQ_sse4_1.c:283-660, entered only for '
+    'shapingLPCOrder=10 and predictLPCOrder=16) is not bit-exact with silk_NSQ_c — it feeds a stale local sDiff_shp_Q14 into the shaping '
+    'filter — but silk_setup_complexity only selects orders 12,14,16,20,24, so no encoder input reaches it; the search probes it and '
+    'prints the count as an observation',
     'silk_NSQ_sse4_1, silk_NSQ_del_dec_sse4_1, silk_NSQ_del_dec_avx2, silk_VAD_GetSA_Q8_sse4_1, op_pvq_search_sse2 have no Lean model: '
     'C-vs-SIMD comparison is differential only (live encoder states at every arch level plus structured perturbations) and is '
     'counted as search, not proof',
@@ -273,7 +277,14 @@ def search(ctx):
     env = {'ASAN_OPTIONS': 'detect_leaks=0:abort_on_error=0', 'UBSAN_OPTIONS': 'print_stacktrace=1'}
     wit, cases, notes, samples = [], 0, [], []
     ppm = str(CAL['threshold_ppm'])
-    runs = [
+    runs = []
+    corpus = os.path.join(common.VERIF, 'corpus', 'C15', 'codec_cfgs.txt')
+    if os.path.exists(corpus):
+        for line in open(corpus):
+            t = line.split('#')[0].split()
+            if len(t) == 3:
+                runs.append(('codec-corpus', [_codec(ctx, 'plain'), 'cfg'] + t))
+    runs += [
         ('kernels-search', [_k(ctx, 'san'), 'search', s, '140000' if q else '4000000', ppm]),
         ('codec-wrapped', [_codec(ctx, 'plain'), 'wrap', s, '14' if q else '260', '2' if q else '4', '1' if q else '2']),
         ('codec-wrapped-sanitizer', [_codec(ctx, 'san'), 'wrap', str(ctx.seed + 1000), '5' if q else '50', '0', '1']),
